@@ -14,6 +14,7 @@ empty input.
 import Kap.Proofs.C11Stream
 import Kap.Proofs.C11Defs
 import Kap.Proofs.C11TransLife
+import Kap.Proofs.C11Func
 namespace Kap.Props.C11
 open Kap.C11 Kap.C11.Spec
 
@@ -166,6 +167,22 @@ example : select .min [⟨5, .int 2, [], []⟩, ⟨3, .int 2, [], []⟩, ⟨1, .
 /-- A selector returns one of the batch's own points (so its time, tags and fields are that point's). -/
 theorem selector_selects_a_point (fn : Fn) (xs : List QP) (p : QP) (h : select fn xs = some p) : p ∈ xs :=
   select_mem fn xs p h
+
+/-! ### The incremental reducer behind count, sum, min, max, first, last -/
+
+/-- **`FuncReducer` = the definitions**: the transcribed incremental reducer (`prev` pointer, kapacitor's seed
+point, one `AggregateX` = one call of the `XReduce` function per point, `Emit` dereferencing `prev`) returns for
+EVERY list of points exactly what the model's `reduce` says by definition — count = length, sum = Σ from the
+seed (the seed's time is what `usePointTimes` sees), min/max/first/last = `select` with the documented
+tie-breaking — including the nil dereference of a seedless reducer that never saw a point. -/
+theorem funcReducer_equals_definition (q : Quirks) (cfg : Cfg) (k : Kind) (xs : List QP)
+    (hu : cfg.fn.usesFuncReducer = true) : funcReducerRun q cfg.fn k xs = reduce q cfg k xs :=
+  funcReducerRun_eq_reduce q cfg k xs hu
+
+example : funcReducerRun {} .max .int [⟨5, .int 2, [], []⟩, ⟨3, .int 7, [], []⟩, ⟨1, .int 7, [], []⟩]
+    = some [{ time := some 1, val := .int 7, sel := some ([], []) }] := by decide
+example : funcReducerRun {} .min .int [] = none ∧
+    funcReducerRun {} .count .string [] = some [{ time := none, val := .int 0 }] := by decide
 
 /-! ### Streaming transformations (elapsed, difference, cumulativeSum, movingAverage) -/
 
